@@ -6,6 +6,7 @@ package project
 import (
 	"fmt"
 	"hash/fnv"
+	"image/color"
 	"math"
 	"sort"
 	"strconv"
@@ -236,6 +237,29 @@ func Mesh(m modeling.Mesh) PMesh {
 		p.Mats = append(p.Mats, PMat{N: mm.PrimitiveCount, M: MatId(mm.Material)})
 		wr(uint64(mm.PrimitiveCount))
 		wr(uint64(MatId(mm.Material)))
+		// what the material says (a material is reported through a pointer: its content is part of what
+		// the mesh reports, and nothing may edit it in place)
+		if mat := mm.Material; mat != nil {
+			h.Write([]byte(mat.Name))
+			for _, c := range []color.Color{mat.AmbientColor, mat.DiffuseColor, mat.SpecularColor} {
+				if c == nil {
+					wr(1 << 40)
+					continue
+				}
+				r, g, b, a := c.RGBA()
+				wr(uint64(r)<<48 | uint64(g)<<32 | uint64(b)<<16 | uint64(a))
+			}
+			wr(math.Float64bits(mat.SpecularHighlight))
+			wr(math.Float64bits(mat.OpticalDensity))
+			wr(math.Float64bits(mat.Transparency))
+			for _, t := range []*string{mat.ColorTextureURI, mat.NormalTextureURI, mat.SpecularTextureURI} {
+				if t == nil {
+					wr(2 << 40)
+				} else {
+					h.Write([]byte(*t))
+				}
+			}
+		}
 	}
 	s := h.Sum64()
 	p.Fp = []int{int(s & 0xFFFFF), int((s >> 20) & 0xFFFFF), int((s >> 40) & 0xFFFFF)}
